@@ -463,6 +463,7 @@ def run_check(check, tier="quick", seed=0, replay_only=None):
         for e in entries:
             opts = dict(check.get("opts", {}))
             opts.update(e.get("opts", {}))
+            opts.update(check.get("opts_" + tier, {}))  # check-level per-tier options (e.g. more rounds in the thorough tier)
             opts.update(e.get("opts_" + tier, {}))
             cases = e.get("cases_" + tier, e.get("cases"))
             if cases:
